@@ -228,10 +228,9 @@ fn p_monthday(m: &MonthdayRange, st: &Style) -> Option<String> {
                 return Some(s);
             }
             // "D+" forms
-            let plus_end = match start.0 {
-                d if d.has_year() => fixed(Some(9999), 12, 31),
-                _ => fixed(None, 12, 31),
-            };
+            // (own reading of "the start date carries a year": never the library's `has_year`)
+            let start_has_year = matches!(start.0, Date::Fixed { year: Some(_), .. } | Date::Easter { year: Some(_) });
+            let plus_end = if start_has_year { fixed(Some(9999), 12, 31) } else { fixed(None, 12, 31) };
             if end.0 == plus_end && end.1 == DateOffset::default() && st.alt_forms {
                 s.push('+');
                 return Some(s);
@@ -298,10 +297,14 @@ fn p_weekday(w: &WeekDayRange, st: &Style) -> Option<String> {
     match w {
         WeekDayRange::Fixed { range, offset, nth_from_start, nth_from_end } => {
             let all = nth_from_start.iter().all(|x| *x) && nth_from_end.iter().all(|x| *x);
-            if all {
-                if *offset != 0 {
-                    return None; // `Mo +1 day` is not in the grammar
+            if all && *offset != 0 {
+                // `Mo +1 day` is not in the grammar: the offset needs an nth list, written out in full
+                if range.start() != range.end() {
+                    return None;
                 }
+                return Some(format!("{}{}{}", wday_str(*range.start()), p_nth(nth_from_start, nth_from_end, st), p_day_offset(*offset)));
+            }
+            if all {
                 let mut s = wday_str(*range.start()).to_string();
                 if range.start() != range.end() || st.equal_as_range {
                     s.push_str(&format!("-{}", wday_str(*range.end())));
@@ -550,11 +553,6 @@ pub fn print_expr(e: &OpeningHoursExpression, st: &Style) -> Option<String> {
             });
         }
         let text = print_rule(r, st)?;
-        if i > 0 && r.operator == RuleOperator::Additional && text.starts_with("easter") {
-            // `A, easter …` is read by the grammar as a continuation of A's monthday list
-            // (variable_date accepts a leading space): an additional rule cannot start that way
-            return None;
-        }
         out.push_str(&text);
     }
     if e.rules.is_empty() {
